@@ -1,5 +1,155 @@
-import Blots.Model.Format
+import Blots.Lemmas.FormatLemmas
+/-
+  C08 — formatting is idempotent: the arithmetic heart of blank-line handling, the structure
+  of the joined output, and determinism.
+
+  A formatted program is `join_statements_with_spacing` of the triples
+  (formatted statement text, first line, last line) — statement texts are `format_expr` of an
+  expression (plus an end-of-line comment) or a standalone comment (blots-wasm `format_blots`,
+  `blots --format`).  Formatting the output again sees the same statements at the lines where
+  the first pass put them.
+
+  PROVED here, for all inputs:
+   * `blank_lines_stable`   : the clamp `n = min (gap+1) 3` is a fixed point: n newlines mean
+                               a gap of n-1 empty lines, which yields n newlines again;
+   * `join_structure`       : the output is  s₁ ++ '\n'^g₁ ++ s₂ ++ … ++ sₙ  — the texts in
+                               order, unchanged, separated by newlines only — with
+                               gᵢ = min ((startᵢ₊₁ - endᵢ - 1) + 1) 3, 1 ≤ gᵢ ≤ 3;
+   * `join_is_stable_under_relayout` : re-joining the statements at the positions they have in
+                               the output (`relayout`) gives the same text — blank-line
+                               spacing is idempotent, for any statement texts (multi-line too);
+   * `program_format_is_idempotent_given_statement_roundtrip` : the lifting to programs;
+   * `layout_is_deterministic` : default width, and `idempotent_of_roundtrip` (a formatter
+                               that is a function of the tree is idempotent as soon as its
+                               output parses back to the tree — the C07 claim).
+
+  NOT proved: that re-parsing the output really yields the same trees at those lines with
+  the comments attached to the same nodes (the hypothesis of the lifting): this needs the
+  character-level grammar and the `partial` layout functions.  It is checked on the real code
+  by the model-free oracle of `harness/src/props/c08.rs` (format twice, compare strings, all
+  three drivers, 0–5 blank lines between statements) and by the C07 reparse oracle.
+  `relayout` assumes what pest reports: a statement's span starts on the line of its first
+  character and ends on the line of its last one.
+-/
 namespace Blots.C08
-/-- placeholder replaced later in this session -/
-theorem formatExpr_default (e : Expr) : formatExpr e none = formatExpr e (some DEFAULT_MAX_COLUMNS) := rfl
+open Blots.FormatL
+
+/-- the blank-line clamp is a fixed point of "emit, then measure again" -/
+theorem blank_lines_stable (gap : Nat) :
+    let n := min (gap + 1) 3
+    min ((n - 1) + 1) 3 = n := by
+  intro n; omega
+
+/-- no statements, one statement -/
+theorem join_nil : joinStatementsWithSpacing [] = "" := rfl
+theorem join_single (s : String) (a b : Nat) : joinStatementsWithSpacing [(s, a, b)] = s := rfl
+
+/-- the numbers of newlines between consecutive statements -/
+theorem gaps_formula (stmts : List (String × Nat × Nat)) :
+    gapsOf stmts =
+      List.zipWith (fun a b => min ((b.2.1 - a.2.2 - 1) + 1) 3) stmts stmts.tail := rfl
+
+/-- STRUCTURE of the joined text: the statement texts in order, unchanged, with `gᵢ` newline
+    characters (and nothing else) between statement i and i+1; one gap per consecutive pair;
+    every gap is 1, 2 or 3 (at most two empty lines, never two statements on one line). -/
+theorem join_structure (stmts : List (String × Nat × Nat)) :
+    joinStatementsWithSpacing stmts = weave (stmts.map (·.1)) (gapsOf stmts) ∧
+    (gapsOf stmts).length = stmts.length - 1 ∧
+    ∀ g ∈ gapsOf stmts, 1 ≤ g ∧ g ≤ 3 :=
+  ⟨join_eq_weave stmts, gapsOf_length stmts, gapsOf_bounds stmts⟩
+
+/-- what `weave` is -/
+theorem weave_equations :
+    (∀ gs, weave [] gs = "") ∧ (∀ s gs, weave [s] gs = s) ∧
+    (∀ s t rest g gs, weave (s :: t :: rest) (g :: gs) =
+      s ++ String.ofList (List.replicate g '\n') ++ weave (t :: rest) gs) :=
+  ⟨fun _ => rfl, fun _ _ => rfl, fun _ _ _ _ _ => rfl⟩
+
+/-- one step of the joiner -/
+theorem join_step (x y : String × Nat × Nat) (rest : List (String × Nat × Nat)) :
+    joinStatementsWithSpacing (x :: y :: rest) =
+      x.1 ++ String.ofList (List.replicate (min ((y.2.1 - x.2.2 - 1) + 1) 3) '\n') ++
+        joinStatementsWithSpacing (y :: rest) := join_cons_cons x y rest
+
+/-- where `relayout` puts the statements: the first on line `line`; a statement ends
+    `countNl text` lines after its start; the next starts `gap` lines after that end -/
+theorem relayout_equations (line : Nat) :
+    relayout line [] = [] ∧
+    (∀ s a b, relayout line [(s, a, b)] = [(s, line, line + countNl s)]) ∧
+    (∀ x y rest, relayout line (x :: y :: rest) =
+      (x.1, line, line + countNl x.1) ::
+        relayout (line + countNl x.1 + gapOf x y) (y :: rest)) :=
+  ⟨rfl, fun _ _ _ => rfl, fun x y rest => by
+    obtain ⟨s, a, e⟩ := x; obtain ⟨s2, a2, e2⟩ := y; rfl⟩
+
+/-- IDEMPOTENCE OF THE SPACING.  Joining the statements again, now at the positions they have
+    in the joined text, produces the same text (whatever the first line number, whatever
+    the statement texts). -/
+theorem join_is_stable_under_relayout (stmts : List (String × Nat × Nat)) (line : Nat) :
+    joinStatementsWithSpacing (relayout line stmts) = joinStatementsWithSpacing stmts :=
+  join_relayout stmts line
+
+/-- LIFTING to programs (`formatProgram w prog` = the joiner applied to the triples
+    (`formatExpr e w`, first line, last line) of `prog`): if re-parsing the formatted program gives statements `prog'` whose
+    formatted texts are those of `prog` (same trees ⇒ same texts, `format_expr` being a
+    function of the tree) located where the first pass put them, the second pass returns the
+    first pass's text. -/
+theorem program_format_is_idempotent_given_statement_roundtrip (w : Option Nat)
+    (prog prog' : List (Expr × Nat × Nat))
+    (h : prog'.map (fun x => (formatExpr x.1 w, x.2.1, x.2.2)) =
+      relayout 1 (prog.map fun x => (formatExpr x.1 w, x.2.1, x.2.2))) :
+    formatProgram w prog' = formatProgram w prog := by
+  unfold formatProgram
+  rw [h, join_relayout]
+
+/-- DETERMINISM: `format_expr` without a width is `format_expr` at 80 columns; and
+    `format_expr_impl` is a function of (width, indent, tree) only — in the model by
+    construction (`fmtImpl : Nat → Nat → Expr → String`), in the Rust code because it reads
+    nothing else (no spans, no global state). -/
+theorem layout_is_deterministic (e : Expr) :
+    formatExpr e none = formatExpr e (some DEFAULT_MAX_COLUMNS) ∧
+    ∀ w, formatExpr e w = protectStatementStart (fmtImpl (w.getD DEFAULT_MAX_COLUMNS) 0 e) :=
+  ⟨rfl, fun _ => rfl⟩
+
+/-- a formatter that is a function of the tree is idempotent on every text whose formatted
+    form parses back to the same tree (`parse` is any function here; for the real parser the
+    hypothesis is property C07) -/
+theorem idempotent_of_roundtrip (parse : String → Option Expr) (w : Option Nat) (src : String)
+    (e : Expr) (h1 : parse src = some e) (h2 : parse (formatExpr e w) = some e) :
+    ((parse src).map (formatExpr · w)).bind (fun out => (parse out).map (formatExpr · w)) =
+      (parse src).map (formatExpr · w) := by
+  simp [h1, h2]
+
+/-! #### examples -/
+
+section examples
+/-- 0, 1, 2, 3 and 7 empty lines between statements ↦ 1, 2, 3, 3, 3 newlines -/
+example : [0, 1, 2, 3, 7].map (fun gap => min (gap + 1) 3) = [1, 2, 3, 3, 3] := by decide
+
+/-- three statements, the second spanning two lines; 3 empty lines then none -/
+private abbrev ex : List (String × Nat × Nat) := [("a = 1", 1, 1), ("b = [\n]", 5, 6), ("c", 7, 7)]
+example : gapsOf ex = [3, 1] := by decide
+example : 3 ∈ gapsOf ex := by decide
+example : joinStatementsWithSpacing ex = "a = 1\n\n\nb = [\n]\nc" := by decide
+example : relayout 1 ex = [("a = 1", 1, 1), ("b = [\n]", 4, 5), ("c", 6, 6)] := by decide
+example : joinStatementsWithSpacing (relayout 1 ex) = "a = 1\n\n\nb = [\n]\nc" := by decide
+
+/-- the hypothesis of the lifting is satisfiable: two statements five lines apart come back,
+    after the first pass, three lines apart (texts are the opaque `formatExpr …`) -/
+example (w : Option Nat) (e1 e2 : Expr) :
+    let t1 := formatExpr e1 w
+    let prog : List (Expr × Nat × Nat) := [(e1, 2, 2), (e2, 7, 9)]
+    let prog' : List (Expr × Nat × Nat) :=
+      [(e1, 1, 1 + countNl t1), (e2, 1 + countNl t1 + 3, 1 + countNl t1 + 3 + countNl (formatExpr e2 w))]
+    prog'.map (fun x => (formatExpr x.1 w, x.2.1, x.2.2)) =
+      relayout 1 (prog.map fun x => (formatExpr x.1 w, x.2.1, x.2.2)) := by
+  intro t1 prog prog'
+  rfl
+
+/-- the hypotheses of `idempotent_of_roundtrip` are satisfiable -/
+example : ∃ (parse : String → Option Expr) (src : String) (e : Expr),
+    parse src = some e ∧ parse (formatExpr e none) = some e :=
+  ⟨fun _ => some (.bin .add (.ident "a") (.ident "b")), "a+b", _, rfl, rfl⟩
+end examples
+
 end Blots.C08
